@@ -143,7 +143,9 @@ class Model:
         inc = [k for k in self.edges if n in self.knodes(k)]
         if keep:
             if self.kind == "D":
-                raise Ambiguous("directed keep_edges")
+                if inc:
+                    raise Ambiguous("directed keep_edges on a node with incident hyperedges")
+                # a node without incident hyperedges: keep_edges has nothing to decide
             for k in inc:
                 nk = self.shrink_key(k, n)
                 if len(self.knodes(nk)) == 0 and self.kind != "H":
